@@ -121,3 +121,77 @@ hc_prop("C20",
     "Boundary model (submissions, wire, accepted window acks) bounds send_buffer_size() after every call: [L, U] with U-L = stale TimeSensitive packets not yet provably discarded; exact value whenever nothing is pending; never above the total submitted.",
     "reference-model monitor on a public observable",
     dict(quick=300, thorough=8000), require=["sbs_checks", "not_pending_observations", "ts_discarded"])
+
+hc_prop("C04",
+    lambda tier: [dict(family="frag-len", n=T(tier, 5795 + 400, 5795 + 30000), params={"prop": "C04"}, scalable=False),
+                  hc("frag", 1500, 60000, tier, "C04", frag_packets=T(tier, 40, 120)),
+                  hc("frag-twin", 1000, 40000, tier, "C04")],
+    GEN + "frag-len: ONE packet per scenario, every length 0..=5794 exhaustively (then sampled lengths up to 1 MB), fragments duplicated / reordered / partly lost and resent. frag: multi-fragment heavy mixes with rates that cut packets across flushes. frag-twin: same scenario twice, second run with datagrams appended whose header disagrees with the genuine fragments of the same packet (forward link ideal so the first fragment seen is genuine). non-trivial: multi-fragment packet delivered after >= 1 duplicate / delayed / lost fragment (frag-len: delivered), twin: >= 1 conflicting datagram injected.",
+    "Wire monitor: no emitted frame > 1472 bytes; every datagram equals the right slice of its packet; byte-exact delivery (C01 oracle); single packets delivered exactly once; twin-run equality of deliveries under conflicting fragments. Length sweep is exhaustive for 0..=4*1448+2, everything else sampled.",
+    "wire-slicing monitor + exhaustive length sweep + twin-run differential",
+    dict(quick=1500, thorough=20000), require=["single_packet_multifrag", "conflicting_datagrams_injected", "delivered_multifrag"])
+
+hc_prop("C06",
+    lambda tier: [dict(family="hostile-rx", n=T(tier, 48, 1500), params={"batch": 20, "frames": T(tier, 2000, 6000)}),
+                  hc("alloc-pair", 1500, 60000, tier, "C06"),
+                  hc("faulty", 500, 20000, tier, "C06")],
+    GEN + "hostile-rx: a real receiving HalfConnection fed CRC-valid hostile frames (claimed fragment counts up to 65536, ids inside/outside/aliasing the window, never-completing packets, ack-group floods with jumping frame ids, inconsistent parent leads), receive allocation 1 B..5 MB, receive cadence from every frame to never; the checking allocator's scoped live-byte counter is sampled after every call. alloc-pair: honest pairs with tiny allocations/windows so the sender sits at the limit. non-trivial: receive allocation driven to >= 90 % or >= 50 datagrams handled (hostile), sender at its window or allocation limit (pair).",
+    "Receiver: scoped heap of the connection <= heap at construction + max_receive_alloc rounded up to a fragment (+0.2 %) + 192 kB of protocol-constant state, after every call of a hostile stream. Sender: boundary model of outstanding packets/bytes vs the peer's advertised limits. Pair: placeholder ('dud') counter stays zero.",
+    "scoped heap monitor (checking allocator) under hostile input + boundary-model monitor",
+    dict(quick=600, thorough=15000), require=["hostile_frames", "sessions_reaching_90pct_of_receive_alloc", "sender_near_alloc_limit", "sessions_lead_confusion", "sessions_ack_group_flood"])
+
+hc_prop("C11",
+    lambda tier: [hc("blackout", 1500, 60000, tier, "C11"),
+                  hc("fault-then-fair", 800, 30000, tier, "C11")],
+    GEN + "blackout family: total / one-way blackouts of 0.1 s..10 min, loss of all acks / all data / everything but syncs for a period, lasting x10 latency changes, then probe trains of every mode. non-trivial: >= 1 frame lost to the blackout and >= 10 packets delivered.",
+    "Progress monitor on virtual time after the network turns fair: stall = no delivery / first transmission / ack / window movement for max(600 s, 4*RTO) with backlog; pinned = allowed rate <= 92 B/s for 4 h of virtual time with backlog under a ceiling >= 64x that. A scenario still progressing at the horizon is inconclusive. 'Permanently' is restated as these bounded windows.",
+    "virtual-time progress monitor over blackout schedules",
+    dict(quick=500, thorough=15000), require=["probe_trains", "fate_blackout_drop", "scenarios_quiescent"])
+
+PROPS["C14"] = dict(
+    runs=lambda tier: [dict(family="srcomp", n=T(tier, 400, 20000), params={"batch": 200, "steps": 60}),
+                       hc("rate", 800, 30000, tier, "C14"),
+                       hc("blackout", 300, 10000, tier, "C14")],
+    rule=("srcomp: the real SendRateComp driven directly with random feedback histories (RTT sample 0..10^6 ms, receive rate 0..2^32-1, loss rate 0..1 "
+          "incl. 1e-9, rate-limited flag, gaps 0 ms..hours, ceilings 1472..2^32-1), stepped in lock-step with an independent evaluation of the RFC 5348 "
+          "bounds; non-trivial = history reached the throughput-equation phase and had >= 1 no-feedback reduction. rate/blackout: the live controller "
+          "inside hcsim sampled after every step against ceiling and floor. distinct = hash(ceiling, feedback count, reductions, final rate) / scenario signature."),
+    level_text="Lock-step reference oracle: after every step X <= ceiling, X >= 23; after the first loss report X <= max(T(R,p),23); slow start at most doubles or uses 4380/R; no increase without feedback, an expiry at most halves; rtt_s is the 0.9/0.1 average; the loss history is initialised within 5 % of the target when the target is reachable.",
+    level_note="Trusted: the ~40-line f64 evaluation of the RFC formulas in harness/src/rate14.rs. Timer expiry instants are not modelled (bounds only).",
+    technique="lock-step reference oracle on the real rate controller",
+    floor=dict(quick=2000, thorough=50000), require_counters=["srcomp_steps", "slow_start_exits", "eqn_phase_feedbacks", "nofeedback_reductions", "initial_p_checked"],
+    assumptions=["feedback histories are arbitrary, not restricted to those a frame queue can produce"])
+
+PROPS["C03"] = dict(
+    runs=lambda tier: [dict(family="hostile-hc", n=T(tier, 100, 5000), params={"batch": 20, "frames": 400}),
+                       dict(family="hostile-hc", n=T(tier, 60, 2500), params={"batch": 20, "frames": 400}, flavour="checked"),
+                       dict(family="hostile-rx", n=T(tier, 24, 600), params={"batch": 10, "frames": 1500}),
+                       dict(family="hostile-rx", n=T(tier, 16, 300), params={"batch": 10, "frames": 1000}, flavour="checked"),
+                       dict(family="srcomp", n=T(tier, 100, 5000), params={"batch": 200, "steps": 60}),
+                       dict(family="srcomp", n=T(tier, 60, 2000), params={"batch": 200, "steps": 60}, flavour="checked"),
+                       dict(family="codec-decode", n=T(tier, 40, 2000), params={"batch": 2000}, flavour="checked"),
+                       dict(family="faulty", n=T(tier, 600, 20000), params={}, flavour="checked"),
+                       dict(family="fault-then-fair", n=T(tier, 300, 10000), params={}, flavour="checked"),
+                       dict(family="ideal", n=T(tier, 200, 10000), params={}, flavour="checked"),
+                       dict(family="rate", n=T(tier, 200, 10000), params={}, flavour="checked"),
+                       dict(family="ack-twin", n=T(tier, 150, 5000), params={}, flavour="checked")],
+    rule=("hostile-hc / hostile-rx: a real HalfConnection (windows 4..4096, nonces near wrap) receives CRC-valid frames composed against its live windows - every id from "
+          "{base, base+-1, base+W, base+W+-1, next, 2^20 aliases, high bits set, random}, fragment ids/counts {0,1,last,last+1,65535}, leads {0,1,65535,..}, ack bitfields "
+          "{0,1,0x80000001,~0}, random bytes with a valid CRC, mutated copies of the victim's own frames - interleaved with send/step/flush/receive at spacings 0..5000 ms; all input "
+          "passes Frame::read. srcomp: arbitrary feedback into the rate controller. The honest families are replayed as crash detectors. Every family also runs in the 'checked' "
+          "flavour (debug assertions + overflow checks). non-trivial: >= 20 hostile frames accepted by the reader and handled; distinct = hash of the per-type handled counts."),
+    level_text="Crash/hang oracle: catch_unwind + panic hook around every call into uflow, a wall-clock watchdog (10 s per call, 120 s confirmation re-run) for non-returning calls, process exit status for aborts. Endpoint-level hostile peers (Server/Client) are covered by the epsim families listed under C07/C18.",
+    level_note="Trusted: the watchdog thresholds (a single call legitimately takes micro- to milliseconds). Only inputs the generators produce are judged.",
+    technique="panic/hang monitor under generated hostile frames, release and debug-assertion builds",
+    floor=dict(quick=1500, thorough=50000), require_counters=["hostile_frames", "handled_data", "handled_acks", "handled_sync", "srcomp_steps"],
+    assumptions=["API misuse the documentation forbids (oversized send, bad channel, invalid config) is never generated"])
+
+hc_prop("C19",
+    lambda tier: [hc("frag", 1500, 50000, tier, "C19", frag_packets=T(tier, 40, 100)),
+                  hc("faulty", 1500, 50000, tier, "C19"),
+                  hc("alloc-pair", 500, 20000, tier, "C19"),
+                  dict(family="hostile-rx", n=T(tier, 24, 600), params={"batch": 10, "frames": 1500})],
+    GEN + "Every scenario runs under the checking global allocator (layout recorded at alloc, compared at dealloc/realloc; live bytes of calls into uflow counted per scope); at the end both HalfConnections are dropped mid-state (delivered, skipped, partially assembled, resynchronised-away packets). non-trivial: teardown checked and >= 1 reassembled multi-fragment packet freed.",
+    "Allocator-contract monitor on every free in every scenario + leak check at teardown (scoped live bytes return to the pre-construction value). Miri / ASan runs are listed separately in the evidence when the tier includes them.",
+    "checking global allocator (layout match, scoped leak check) over fault-injected executions",
+    dict(quick=800, thorough=20000), require=["teardowns_checked", "delivered_multifrag"])
